@@ -380,4 +380,24 @@ Proof.
     apply flat_map_ext. intro k. rewrite Hdel. unfold del_val. destruct (assoc k (dests sg)) as [d|]; auto.
     unfold delete_decision. destruct (alookup k (src_seen st)); auto. destruct (needs_delete d0 d); auto.
 Qed.
+
+(* The characterisation stated over the two listings themselves (a listing is an association list). *)
+Lemma assoc_alookup k (l:list (K*Det)) : assoc k l = alookup k l.
+Proof. induction l as [|[k' v] l IH]; simpl; auto. destruct (K_eq_dec k k'); auto. Qed.
+Lemma copy_decision_ext D D' e : (forall k, alookup k D = alookup k D') -> copy_decision D e = copy_decision D' e.
+Proof. intros H. destruct e as [p s]. unfold copy_decision. rewrite H. reflexivity. Qed.
+Lemma delete_decision_ext S S' e : (forall k, alookup k S = alookup k S') -> delete_decision S e = delete_decision S' e.
+Proof. intros H. destruct e as [p d]. unfold delete_decision. rewrite H. reflexivity. Qed.
+
+Theorem plan_char sg : NoDup (keys (srcs sg)) -> NoDup (keys (dests sg)) ->
+  exists st, plan sg = Some st /\
+    oiter (to_cp st) = flat_map (copy_decision (dests sg)) (srcs sg) /\
+    oiter (oreverse (to_del st)) = rev (flat_map (delete_decision (srcs sg)) (dests sg)).
+Proof.
+  intros Hns Hnd. destruct (plan_inv sg Hns Hnd) as (st & Hp & HI). exists st. split; [exact Hp|].
+  destruct (plan_deterministic sg st Hns Hnd Hp) as [H1 H2]. destruct HI as [Hs Hd _ _ _ _ _ _].
+  split.
+  - rewrite H1. apply flat_map_ext. intro e. apply copy_decision_ext. intro k. rewrite Hd. apply assoc_alookup.
+  - rewrite H2. f_equal. apply flat_map_ext. intro e. apply delete_decision_ext. intro k. rewrite Hs. apply assoc_alookup.
+Qed.
 End Plan.
